@@ -1,6 +1,7 @@
 import MmtkModel.Model.Map32
 import MmtkModel.Lemmas.Map32FL
 import MmtkModel.Lemmas.Map32Ghost
+import MmtkModel.Lemmas.Map32Init
 /-!
 # C29 — Discontiguous chunk allocation keeps the region map consistent  (PARTIAL)
 
@@ -639,5 +640,290 @@ theorem inv_freeAll {lo hi : Nat} {g : G} {st : St} (hI : Inv lo hi g st) {debug
   rw [h] at h'
   cases h'
   exact hI'
+
+/-- Under the invariant, `allocate_contiguous_chunks` (with `k ≥ 1` and `head` = `0` or a list head)
+hits none of its assertions. -/
+theorem allocate_ok {lo hi : Nat} {g : G} {st : St} (hI : Inv lo hi g st) (debug : Bool)
+    (d : Nat) {k head : Nat} (hk : 1 ≤ k) (hhead : head = 0 ∨ ∃ l ∈ g.lists, l.head? = some head) :
+    ∃ c, (allocate debug st d k head).2 = R.val c := by
+  cases hal : st.fl.alloc k with
+  | mk o fl' =>
+  cases o with
+  | none => exact ⟨0, by unfold allocate; rw [hal]⟩
+  | some chunk =>
+    have hsome : (st.fl.alloc k).1 = some chunk := by rw [hal]
+    obtain ⟨s, hfree, hks, _, _⟩ := alloc_spec hI.fl hk hsome
+    obtain ⟨hclo, hchi⟩ := hI.fl.free_in _ hfree rfl
+    dsimp only at hclo hchi
+    have hlo := hI.lo_pos
+    obtain ⟨hnd, hmem, hlk, hunl⟩ := hI.links_exact
+    have hdisj : ∀ r' ∈ g.regions, r'.start + r'.size ≤ chunk ∨ chunk + s ≤ r'.start := by
+      intro r' hr'
+      rcases hI.fl.eq_or_disj (hI.reg_run r' hr') hfree with e | dd
+      · cases e
+      · exact dd
+    have hcnot : chunk ∉ g.lists.flatten := by
+      intro m
+      obtain ⟨r', hr', hs⟩ := (hmem chunk).1 m
+      have := hdisj r' hr'
+      have := (hI.regions_disjoint.2 r' hr').1
+      omega
+    obtain ⟨hnc, hpc⟩ := hunl chunk hcnot
+    have hc0 : (chunk == 0) = false := by simp; omega
+    have hany : ((List.range' chunk k).any fun c => st.desc c != 0) = false := by
+      rw [List.any_eq_false]
+      intro x hx
+      rw [List.mem_range'_1] at hx
+      have : st.desc x = 0 := by
+        apply hI.descriptor_exact.2
+        intro r' hr' hin
+        have := hdisj r' hr'
+        omega
+      simp [this]
+    refine ⟨chunk, ?_⟩
+    unfold allocate
+    rw [hal]
+    by_cases hh : head = 0
+    · simp [hc0, hany, hh, hnc, hpc]
+    · have hne : chunk ≠ head := by
+        rcases hhead with e | ⟨l, hl, hlh⟩
+        · exact absurd e hh
+        · intro e
+          apply hcnot
+          refine List.mem_flatten.2 ⟨l, hl, ?_⟩
+          cases l with
+          | nil => cases hlh
+          | cons b t => simp at hlh; rw [e, ← hlh]; exact List.mem_cons_self ..
+      simp [hc0, hany, hh, upd, hne, hpc]
+/-! ### The initial state -/
+
+/-- **The finalised state satisfies the invariant** (no region handed out yet), for every
+`finalize_static_space_map(first, last)` with `0 < first ≤ last < maxChunks`. -/
+theorem inv_init {M first last : Nat} (h1 : 0 < first) (h2 : first ≤ last) (h3 : last < M) :
+    Inv first (last + 1) {} (finalize M first last) := by
+  refine ⟨h1, (finalize_fl h1 h2 h3).1, ?_, ⟨?_, ?_⟩, ⟨?_, ?_⟩, ⟨?_, ?_, ?_, ?_⟩, ?_⟩
+  · intro r hr; cases hr
+  · exact List.Pairwise.nil
+  · intro r hr; cases hr
+  · intro r hr; cases hr
+  · intro x _; rfl
+  · exact List.Pairwise.nil
+  · intro c
+    constructor
+    · intro h; cases h
+    · rintro ⟨r, hr, _⟩; cases hr
+  · intro l hl; cases hl
+  · intro c _; exact ⟨rfl, rfl⟩
+  · show (finalize M first last).avail + 0 = last + 1 - first
+    rfl
+
+/-! ### Histories -/
+
+/-- The three operations of C29. -/
+inductive Op
+  /-- `allocate_contiguous_chunks(descriptor, chunks, head)` -/
+  | alloc (d k head : Nat)
+  /-- `free_contiguous_chunks(start)` -/
+  | free (c : Nat)
+  /-- `free_all_chunks(any_chunk)` -/
+  | freeAll (c : Nat)
+deriving Repr, DecidableEq
+
+/-- The callers' protocol (what the generator of `checks/C29.py` respects): at least one chunk is
+requested and `head` is `0` or the current head of a region list; only allocated regions are freed;
+`free_all_chunks` gets `0` or a region of a list (of at most 4097 regions: the model's loops have
+4096 units of fuel each — the code's loops are unbounded). -/
+def Pre (g : G) : Op → Prop
+  | .alloc _ k head => 1 ≤ k ∧ (head = 0 ∨ ∃ l ∈ g.lists, l.head? = some head)
+  | .free c => ∃ r ∈ g.regions, r.start = c
+  | .freeAll c => c = 0 ∨ ∃ l ∈ g.lists, c ∈ l ∧ l.length ≤ 4096 + 1
+
+/-- One operation on the model together with the oracle's bookkeeping; `none` = panic. -/
+def step (debug : Bool) (g : G) (st : St) : Op → Option (G × St)
+  | .alloc d k head =>
+    match allocate debug st d k head with
+    | (st', .val c) => some (g.alloc d k head c, st')
+    | _ => none
+  | .free c =>
+    match freeNoLock debug st c with
+    | some (st', _) => some (g.free c, st')
+    | none => none
+  | .freeAll c =>
+    match freeAll debug st c with
+    | some st' => some (g.freeAll c, st')
+    | none => none
+
+/-- Run a history; `none` as soon as an operation panics. -/
+def run (debug : Bool) : G → St → List Op → Option (G × St)
+  | g, st, [] => some (g, st)
+  | g, st, op :: ops =>
+    match step debug g st op with
+    | none => none
+    | some (g', st') => run debug g' st' ops
+
+/-- Every operation of the history respects the protocol in the state it is applied to. -/
+def Valid (debug : Bool) : G → St → List Op → Prop
+  | _, _, [] => True
+  | g, st, op :: ops =>
+    Pre g op ∧ match step debug g st op with
+      | none => True
+      | some (g', st') => Valid debug g' st' ops
+
+/-- One protocol-respecting operation preserves the invariant. -/
+theorem inv_step {lo hi : Nat} {g : G} {st : St} (hI : Inv lo hi g st) {debug : Bool} {op : Op}
+    (hpre : Pre g op) {g' : G} {st' : St} (h : step debug g st op = some (g', st')) : Inv lo hi g' st' := by
+  cases op with
+  | alloc d k head =>
+    simp only [step] at h
+    split at h
+    · rename_i st'' c heq
+      simp only [Option.some.injEq, Prod.mk.injEq] at h
+      obtain ⟨rfl, rfl⟩ := h
+      exact inv_allocate hI hpre.1 hpre.2 heq
+    · cases h
+  | free c =>
+    obtain ⟨r, hr, rfl⟩ := hpre
+    simp only [step] at h
+    split at h
+    · rename_i st'' n heq
+      simp only [Option.some.injEq, Prod.mk.injEq] at h
+      obtain ⟨rfl, rfl⟩ := h
+      exact (inv_free hI hr heq).2
+    · cases h
+  | freeAll c =>
+    simp only [step] at h
+    split at h
+    · rename_i st'' heq
+      simp only [Option.some.injEq, Prod.mk.injEq] at h
+      obtain ⟨rfl, rfl⟩ := h
+      exact inv_freeAll hI hpre heq
+    · cases h
+
+/-- Under the invariant a protocol-respecting operation does not panic (no assertion of
+`allocate_contiguous_chunks` / `free_contiguous_chunks_no_lock` fires), in debug and release. -/
+theorem step_isSome {lo hi : Nat} {g : G} {st : St} (hI : Inv lo hi g st) (debug : Bool) {op : Op}
+    (hpre : Pre g op) : ∃ g' st', step debug g st op = some (g', st') := by
+  cases op with
+  | alloc d k head =>
+    obtain ⟨c, hc⟩ := allocate_ok hI debug d hpre.1 hpre.2
+    simp only [step]
+    cases hal : allocate debug st d k head with
+    | mk st' r =>
+      rw [hal] at hc
+      dsimp only at hc
+      subst hc
+      exact ⟨_, _, rfl⟩
+  | free c =>
+    obtain ⟨r, hr, rfl⟩ := hpre
+    obtain ⟨st', n, h⟩ := freeNoLock_isSome hI hr debug
+    simp only [step]
+    rw [h]
+    exact ⟨_, _, rfl⟩
+  | freeAll c =>
+    obtain ⟨st', h, _⟩ := freeAll_spec hI (debug := debug) hpre
+    simp only [step]
+    rw [h]
+    exact ⟨_, _, rfl⟩
+
+/-- **The history invariant** (induction over the operation list): the invariant holds after every
+protocol-respecting history of `allocate_contiguous_chunks` / `free_contiguous_chunks` /
+`free_all_chunks`. -/
+theorem history_inv {lo hi : Nat} {debug : Bool} : ∀ (ops : List Op) {g : G} {st : St}, Inv lo hi g st →
+    Valid debug g st ops → ∀ {g' : G} {st' : St}, run debug g st ops = some (g', st') → Inv lo hi g' st'
+  | [], g, st, hI, _, g', st', h => by
+    simp only [run, Option.some.injEq, Prod.mk.injEq] at h
+    obtain ⟨rfl, rfl⟩ := h
+    exact hI
+  | op :: ops, g, st, hI, hv, g', st', h => by
+    obtain ⟨hpre, hrest⟩ := hv
+    obtain ⟨g1, st1, hs⟩ := step_isSome hI debug hpre
+    rw [hs] at hrest
+    rw [run, hs] at h
+    exact history_inv ops (inv_step hI hpre hs) hrest h
+
+/-- A protocol-respecting history never panics. -/
+theorem history_no_panic {lo hi : Nat} {debug : Bool} : ∀ (ops : List Op) {g : G} {st : St}, Inv lo hi g st →
+    Valid debug g st ops → ∃ g' st', run debug g st ops = some (g', st')
+  | [], g, st, _, _ => ⟨g, st, rfl⟩
+  | op :: ops, g, st, hI, hv => by
+    obtain ⟨hpre, hrest⟩ := hv
+    obtain ⟨g1, st1, hs⟩ := step_isSome hI debug hpre
+    rw [hs] at hrest
+    rw [run, hs]
+    exact history_no_panic ops (inv_step hI hpre hs) hrest
+
+/-- **C29**: after any protocol-respecting history from the finalised state the invariant
+`regions_disjoint ∧ descriptor_exact ∧ links_exact ∧ avail_exact` holds. -/
+theorem history_inv_init {M first last : Nat} (h1 : 0 < first) (h2 : first ≤ last) (h3 : last < M)
+    {debug : Bool} {ops : List Op} (hv : Valid debug {} (finalize M first last) ops) {g : G} {st : St}
+    (hr : run debug {} (finalize M first last) ops = some (g, st)) : Inv first (last + 1) g st :=
+  history_inv ops (inv_init h1 h2 h3) hv hr
+
+/-- The regions handed out and not yet freed are non-empty, inside the range and pairwise disjoint. -/
+theorem history_regions_disjoint {M first last : Nat} (h1 : 0 < first) (h2 : first ≤ last) (h3 : last < M)
+    {debug : Bool} {ops : List Op} (hv : Valid debug {} (finalize M first last) ops) {g : G} {st : St}
+    (hr : run debug {} (finalize M first last) ops = some (g, st)) :
+    g.regions.Pairwise Reg.Disj ∧
+    ∀ r ∈ g.regions, 0 < r.size ∧ first ≤ r.start ∧ r.start + r.size ≤ last + 1 :=
+  (history_inv_init h1 h2 h3 hv hr).regions_disjoint
+
+/-- The descriptor map says exactly which space owns each chunk. -/
+theorem history_descriptor_exact {M first last : Nat} (h1 : 0 < first) (h2 : first ≤ last) (h3 : last < M)
+    {debug : Bool} {ops : List Op} (hv : Valid debug {} (finalize M first last) ops) {g : G} {st : St}
+    (hr : run debug {} (finalize M first last) ops = some (g, st)) :
+    (∀ r ∈ g.regions, ∀ x, r.start ≤ x → x < r.start + r.size → st.desc x = r.desc) ∧
+    (∀ x, (∀ r ∈ g.regions, ¬ (r.start ≤ x ∧ x < r.start + r.size)) → st.desc x = 0) :=
+  (history_inv_init h1 h2 h3 hv hr).descriptor_exact
+
+/-- The `prev`/`next` links of each space's region list are exact; `get_contiguous_region_chunks` of
+every allocated region is its size. -/
+theorem history_links_exact {M first last : Nat} (h1 : 0 < first) (h2 : first ≤ last) (h3 : last < M)
+    {debug : Bool} {ops : List Op} (hv : Valid debug {} (finalize M first last) ops) {g : G} {st : St}
+    (hr : run debug {} (finalize M first last) ops = some (g, st)) :
+    g.lists.flatten.Nodup ∧ (∀ c, c ∈ g.lists.flatten ↔ ∃ r ∈ g.regions, r.start = c) ∧
+    (∀ l ∈ g.lists, Linked st 0 l) ∧ (∀ c, c ∉ g.lists.flatten → st.next c = 0 ∧ st.prev c = 0) ∧
+    (∀ r ∈ g.regions, regionChunks st r.start = r.size) := by
+  have hI := history_inv_init h1 h2 h3 hv hr
+  obtain ⟨a, b, c, d⟩ := hI.links_exact
+  exact ⟨a, b, c, d, fun r hr => hI.region_chunks hr⟩
+
+/-- The available-chunk count is exact. -/
+theorem history_avail_exact {M first last : Nat} (h1 : 0 < first) (h2 : first ≤ last) (h3 : last < M)
+    {debug : Bool} {ops : List Op} (hv : Valid debug {} (finalize M first last) ops) {g : G} {st : St}
+    (hr : run debug {} (finalize M first last) ops = some (g, st)) :
+    st.avail + regSum g.regions = last + 1 - first :=
+  (history_inv_init h1 h2 h3 hv hr).avail_exact
+
+/-- What `Linked` means for a walk: following `next` from the head of a list visits exactly the list. -/
+def walk (st : St) : Nat → Nat → List Nat
+  | 0, _ => []
+  | fuel + 1, c => if c = 0 then [] else c :: walk st fuel (nextRegion st c)
+
+theorem walk_linked {st : St} : ∀ (l : List Nat) (p : Nat) (fuel : Nat), Linked st p l → 0 ∉ l →
+    l.length ≤ fuel → walk st fuel (l.headD 0) = l
+  | [], _, fuel, _, _, _ => by cases fuel <;> simp [walk]
+  | a :: t, p, 0, _, _, hlen => by simp at hlen
+  | a :: t, p, fuel + 1, h, h0, hlen => by
+    have ha : a ≠ 0 := fun e => h0 (e ▸ List.mem_cons_self ..)
+    have ht : 0 ∉ t := fun m => h0 (List.mem_cons_of_mem _ m)
+    have ih := walk_linked t a fuel h.2.2 ht (by simpa using hlen)
+    have hnr : nextRegion st a = t.headD 0 := by
+      unfold nextRegion
+      rw [h.2.1]
+      generalize t.headD 0 = v
+      by_cases e : v = 0
+      · subst e; simp
+      · simp [ha, e]
+    simp only [List.headD_cons, walk, ha, if_false, hnr, ih]
+
+/-- `links_exact` as the oracle checks it: walking `get_next_contiguous_region` from the head of a
+space's list visits exactly the allocated regions of that space, in order, once. -/
+theorem history_walk {M first last : Nat} (h1 : 0 < first) (h2 : first ≤ last) (h3 : last < M)
+    {debug : Bool} {ops : List Op} (hv : Valid debug {} (finalize M first last) ops) {g : G} {st : St}
+    (hr : run debug {} (finalize M first last) ops = some (g, st)) {l : List Nat} (hl : l ∈ g.lists)
+    {fuel : Nat} (hf : l.length ≤ fuel) : walk st fuel (l.headD 0) = l := by
+  have hI := history_inv_init h1 h2 h3 hv hr
+  exact walk_linked l 0 fuel (hI.links_exact.2.2.1 l hl)
+    (fun m => hI.zero_not_mem (List.mem_flatten.2 ⟨l, hl, m⟩)) hf
 
 end Mmtk.Map32
